@@ -6,12 +6,13 @@ class RefHost:
     """One host on the segment. `replies` = [(delay_s, src_port, bytes)] sent once, when the first
     well-formed probe for this host arrives (delays are relative to that probe)."""
 
-    def __init__(self, ip, replies, verify_probe=True):
+    def __init__(self, ip, replies, verify_probe=True, errors=()):
         self.ip = ip
         self.replies = replies
         self.verify_probe = verify_probe
         self.probes = []        # [(time, dst_port, wellformed)]
         self.answered = False
+        self.errors = list(errors)      # [(delay_s, errno)] socket errors surfacing at the prober after the probe
         self.delivered_plan = []
 
     def on_probe(self, net, endpoint, data, dst_port, dst_ip):
@@ -22,6 +23,9 @@ class RefHost:
         if self.answered:
             return
         self.answered = True
+        for delay, eno in self.errors:
+            endpoint.inject_error(ConnectionResetError(eno, "simulated socket error") if eno == 104
+                                  else OSError(eno, "simulated socket error"), delay)
         for delay, src_port, payload in self.replies:
             endpoint.deliver(payload, (self.ip, src_port), delay)
 
